@@ -811,7 +811,13 @@ class LeafNode(Node):
 
     def key_count(self) -> int:
         """Count all keys in this leaf and all following leaves"""
-        return len(self) + (0 if self.next is None else self.next.key_count())
+        # Iterative: the chain can be far longer than the interpreter's recursion limit.
+        count = 0
+        node: Optional["LeafNode"] = self
+        while node is not None:
+            count += len(node)
+            node = node.next
+        return count
 
 
 class BranchNode(Node):
